@@ -268,6 +268,7 @@ func (w *svcWorld) obs() string {
 }
 
 func (w *svcWorld) exec(op string) string {
+	wdStep(op)
 	ws := hx.Words(op)
 	if len(ws) == 0 {
 		return "bad-op"
@@ -345,8 +346,10 @@ func TestSvc(t *testing.T) {
 	logger.GetLogProxy("exception").SetLogLevel(0)
 	logger.SetLogLevel(0)
 	log.SetOutput(io.Discard)
+	h := hx.Open()
+	startWatchdog(h)
+	defer wdDone.Store(true)
 	synctest.Test(t, func(t *testing.T) {
-		h := hx.Open()
 		w := newSvcWorld()
 		w.h = h
 		run := func(op string) {
